@@ -278,6 +278,7 @@ func (g *c05Gen) stmt() {
 
 type c05Prog struct {
 	src    string
+	want   []*big.Int // reference results (when the family computes them)
 	g, e   []string
 	feat   map[string]int
 	nstmts int
@@ -452,6 +453,31 @@ func c05GenProg(r *RNG, stmts int, cheap bool) c05Prog {
 			extra = []c05Var{{"el", c05Type{kind: 2, bits: w, n: 2}}, {"eq", c05Type{kind: 4}}, {"es", ut}, {"et", ut}}
 			g.feat["joint-death-epilogue"]++
 		}
+	}
+	// epilogue (one program in four): one 32-bit constant bit pattern used at 64
+	// bits as a signed and as an unsigned operand (sign- vs zero-extension)
+	if r.Intn(4) == 0 {
+		k := []int64{1, 3, 65536}[r.Intn(3)]
+		it, ut := c05Type{kind: 1, bits: 64}, c05Type{kind: 0, bits: 64}
+		g.emit("ea := %s", g.scalarOf(it))
+		g.emit("eb := %s", g.scalarOf(it))
+		g.emit("var estep int64")
+		g.emit("var emask uint64")
+		sgn, uns := fmt.Sprintf("\testep = -%d", k), fmt.Sprintf("\temask = %d", (int64(1)<<32)-k)
+		if r.Bool() {
+			sgn, uns = uns, sgn
+		}
+		g.emit("if ea > eb {")
+		g.emit("%s", sgn)
+		g.emit("%s", uns)
+		g.emit("} else {")
+		g.emit("\testep = 1")
+		g.emit("\temask = 65535")
+		g.emit("}")
+		g.emit("er1 := ea + estep")
+		g.emit("er2 := uint64(eb) & emask")
+		extra = append(extra, c05Var{"er1", it}, c05Var{"er2", ut})
+		g.feat["sign-resize-epilogue"]++
 	}
 	// results: 1..3 pool variables, later ones preferred
 	nret := 1 + r.Intn(3)
